@@ -217,3 +217,62 @@ def run(ctx, n_random=150):
                          f'(2*update merged + DONE); Sched/Result.v says otherwise',
                          {'kind': 'result', 'shape': coq_r, 'mergeable': mergeable, 'value': val})
     ctx.extra['result_shapes_compared'] = len(items)
+
+
+def run_default_env(ctx):
+    """C02 from the EMPTY environment through the default argument: two Schedulers of one process
+    call schedule() WITHOUT an environment, with tasks of the same names; the second run must not
+    see anything of the first one (real threads, the outcome does not depend on the schedule)."""
+    import threading
+    from valjean.cosette.task import Task, TaskStatus
+    from valjean.cosette.depgraph import DepGraph
+    from valjean.cosette.scheduler import Scheduler
+    counts = {}
+
+    class Plain(Task):
+        def __init__(self, name, fails):
+            super().__init__(name)
+            self.fails = fails
+
+        def do(self, env, config):
+            counts[self.name] = counts.get(self.name, 0) + 1
+            if self.fails:
+                raise RuntimeError('fails in this run')
+            return {self.name: {'run': counts[self.name]}}, TaskStatus.DONE
+    history = [(False, False), (True, False), (False, True), (False, False)]
+    box = {}
+
+    def body():
+        try:
+            seen = []
+            for fa, fb in history:
+                counts.clear()
+                a, b, c = Plain('a', fa), Plain('b', fb), Plain('c', False)
+                graph = DepGraph.from_dependency_dictionary({a: [], b: [a], c: [b]})
+                soft = DepGraph.from_dependency_dictionary({a: [], b: [], c: [a]})
+                env = Scheduler(hard_graph=graph, soft_graph=soft).schedule()
+                seen.append(([str(env[t]['status'].name) for t in 'abc'], [counts.get(t, 0) for t in 'abc']))
+            box['seen'] = seen
+        except BaseException as exc:  # noqa
+            box['exc'] = repr(exc)
+    thread = threading.Thread(target=body, daemon=True)
+    thread.start()
+    thread.join(60)
+    case = {'kind': 'default-env', 'history': history}
+    if thread.is_alive():
+        ctx.oracle_failure('schedule() without an environment argument did not come back within 60 s '
+                           '(history of four runs in one process)', case, key='default-env-hang')
+        return
+    if 'exc' in box:
+        ctx.oracle_failure(f'schedule() without an environment argument raised {box["exc"]}', case,
+                           key='default-env-raise')
+        return
+    for k, ((fa, fb), (statuses, execs)) in enumerate(zip(history, box['seen'])):
+        want = (['FAILED', 'SKIPPED', 'SKIPPED'], [1, 0, 0]) if fa else \
+            (['DONE', 'FAILED', 'SKIPPED'], [1, 1, 0]) if fb else (['DONE', 'DONE', 'DONE'], [1, 1, 1])
+        if (statuses, execs) != want:
+            ctx.oracle_failure(f'run {k} of a process that calls schedule() without an environment each time '
+                               f'(chain a <- b <- c, a fails: {fa}, b fails: {fb}): statuses {statuses}, executions '
+                               f'{execs}; from the empty environment the rule gives {want[0]}, {want[1]}',
+                               case, key='default-env-not-empty')
+    ctx.count('default_env_runs', len(history))
